@@ -460,6 +460,7 @@ def run(res: Results, idx: Index, tier: str) -> None:
                 res.add("R-C13d", inst.status, inst.site, f"R-C09a::{inst.key}", f"[C09 R-C09a] {inst.detail}", inst.func)
     rule_e(res, idx, mods)
     rule_f(res, idx, mods)
+    rule_g(res, idx)
     _controls(res)
 
 
@@ -712,3 +713,85 @@ def rule_e(res: Results, idx: Index, mods) -> None:
                     res.ok("R-C13e", f"{m.rel}:{c.lineno}", key, f"`{src(v, 30)}` is the saved original", fi.qualname)
                 else:
                     res.violation("R-C13e", f"{m.rel}:{c.lineno}", key, f"the finally block writes back `{src(v, 40)}`, which is not the value saved before patching", fi.qualname)
+
+
+# ---------------------------------------------------------------------------------------------- R-C13g
+# receivers of reflective attribute writes that are NOT caller-supplied objects
+OWN_RECEIVER_TAILS = ("_PRIM", "prim", "primitive")
+REFLECTIVE_WRITERS = {"setattr", "object.__setattr__", "delattr"}
+# functions that run when the USER decorates / registers something, not during a conversion
+DECORATION_TIME = {"onnx_function", "register_primitive", "_decorate", "decorator", "wrapper"}
+
+
+def rule_g(res: Results, idx: Index) -> None:
+    """User model objects passed in are not mutated.  Every reflective attribute write (`setattr`, `object.__setattr__`,
+    `delattr`, `<x>.__dict__[k] = v`) in the package is classified by its receiver: converter-owned objects (contexts,
+    builders, plugin primitives), third-party namespaces (R-C13b), patch targets of the paired patchers (R-C13a), objects
+    created in the same function, the decorated target at decoration time.  A receiver that is a parameter or a value
+    derived from one — a callee instance, the user's function or module — is a violation."""
+    res.rule("R-C13g", "reflective attribute writes never target caller-supplied objects during a conversion", floor=80)
+    n = 0
+    for m in idx.product_modules():
+        for fi in list(m.funcs.values()) + [None]:
+            nodes = walk_no_nested(fi.node) if fi is not None else [x for x in m.tree.body for x in ast.walk(x) if m.func_containing(x) is None]
+            du = defuse(fi.node) if fi is not None else None
+            for c in nodes:
+                if not (isinstance(c, ast.Call) and (call_name(c) or "") in REFLECTIVE_WRITERS and c.args):
+                    continue
+                recv = c.args[0]
+                d = dotted(recv) or ""
+                base = d.split(".")[0] if d else ""
+                n += 1
+                fn = fi.qualname if fi is not None else "<module>"
+                key = f"{m.rel}::{fn}::reflective-write::{d or src(recv, 30)}::{src(c.args[1], 30) if len(c.args) > 1 else ''}"
+                site = f"{m.rel}:{c.lineno}"
+                why = None
+                if d and (d.split(".")[-1] in OWN_RECEIVER_TAILS or any(_own_object(p) for p in d.split("."))):
+                    why = "converter-owned object"
+                elif host_root(m, recv) is not None:
+                    why = "third-party namespace (decided by R-C13b)"
+                elif fi is None:
+                    why = "module level"
+                elif fi is not None and any(fi.qualname.split(".")[-1] == nm or f".{nm}." in f".{fi.qualname}." for nm in DECORATION_TIME):
+                    why = "runs when the user applies the decorator, not during a conversion"
+                elif du is not None and base and not du.is_param(base) and du.values(base) and all(isinstance(v, ast.Call) and ((call_name(v) or "").split(".")[-1][:1].isupper() or not (names_in(v) & {a.arg for a in fi.node.args.args})) for v in du.values(base)):  # type: ignore[attr-defined]
+                    why = f"`{base}` is created in this function"
+                elif fi is not None and _only_called_at_decoration(idx, fi):
+                    why = "only called from the decorator: runs when the user decorates the target, not during a conversion"
+                elif du is not None and base and _is_patch_target(fi, base):
+                    why = "patch target of a paired patcher (R-C13a / R-C13f)"
+                if why is not None:
+                    res.ok("R-C13g", site, key, why, fn)
+                    continue
+                derived_from_param = du is not None and base and (du.is_param(base) or any(du.is_param(x) for x in du.closure({base})))
+                if derived_from_param:
+                    res.violation("R-C13g", site, key, f"`{src(c, 70)}` writes an attribute on `{d or base}`, which is (derived from) a parameter of `{fn}`: an object the caller supplied is changed by the conversion "
+                                  "(its __dict__ / pytree structure differs afterwards)", fn)
+                else:
+                    res.unresolved("R-C13g", site, key, f"receiver `{d or src(recv, 30)}` not classified", fn)
+    # plain attribute stores on parameters that carry a user object by name
+    USER_OBJECT_PARAMS = {"instance", "callee", "module", "model", "user_fn", "orig_fn", "original_fn"}
+    for m in idx.product_modules():
+        for fi in m.funcs.values():
+            params = {a.arg for a in fi.node.args.args + fi.node.args.kwonlyargs} & USER_OBJECT_PARAMS  # type: ignore[attr-defined]
+            if not params:
+                continue
+            for st in walk_no_nested(fi.node):
+                tgts = st.targets if isinstance(st, ast.Assign) else [st.target] if isinstance(st, (ast.AugAssign, ast.AnnAssign)) else []
+                for t_ in tgts:
+                    if isinstance(t_, ast.Attribute) and isinstance(t_.value, ast.Name) and t_.value.id in params:
+                        n += 1
+                        res.violation("R-C13g", f"{m.rel}:{st.lineno}", f"{m.rel}::{fi.qualname}::attribute-store::{t_.value.id}.{t_.attr}", f"`{src(st, 60)}` stores an attribute on the caller's `{t_.value.id}` object", fi.qualname)
+    res.analysed["reflective_attribute_writes"] = n
+
+
+def _only_called_at_decoration(idx: Index, fi: FuncInfo) -> bool:
+    cg = get_callgraph(idx)
+    callers = [cs.caller for cs in cg.callers_of(fi) if cs.caller is not None]
+    return bool(callers) and all(any(c.qualname.split(".")[-1] == nm or f".{nm}." in f".{c.qualname}." for nm in DECORATION_TIME) for c in callers)
+
+
+def _is_patch_target(fi: FuncInfo, name: str) -> bool:
+    """the receiver is the loop variable / resolved target of a patcher that restores in a finally (functions of the patching layer)"""
+    txt = fi.module.rel
+    return txt.endswith(("_patching.py", "plugin_system.py")) and any(isinstance(n, ast.Try) and n.finalbody for n in ast.walk(fi.node)) or "patch" in fi.name.lower() or "patch" in fi.qualname.lower()
